@@ -89,7 +89,9 @@ class C06(props.BaseProp):
             if weighted and not big and r.below(100) < 10:
                 # weights below 1 (w/4, exact in binary64): closeness may exceed 1; the Coq model is stated for
                 # integer weights, so these cases are decided by the definitional oracle alone
-                c["wdiv"] = 4
+                # w/10 and w/7 are NOT exact in binary64: distances then carry rounding errors of a few ulp, which the
+                # oracle's 1e-9 tolerance absorbs (closeness depends on distances only, never on ties between paths)
+                c["wdiv"] = r2.pick([4, 4, 10, 7])
                 c["nomodel"] = True
             elif weighted and not big:
                 cg.weight_variant(r2, c)
